@@ -22,6 +22,10 @@ def run(chk):
              "segments, and 'parallel' is reported iff the cross product of the directions vanishes (identity of polynomial normal forms)")
     chk.rule("POLY.cross", "CrossProductSign / IsCollinear / ProductsAreEqual compare two products whose difference is identically the cross product "
              "(pt2-pt1)x(pt3-pt2); portable path: magnitudes and signs of the same factors; 128-bit tail returns sign(ab-cd) / (ab==cd) on every ordering")
+    chk.rule("TYPE.wide-kept", "no 128-bit product is converted to a narrower arithmetic type before it is compared (integer scaling up to 2^40 must "
+             "not change which way a cross-product test goes)")
+    chk.rule("IP.on-edge", "an intersection point clamped into its scanbeam gets its x recomputed on one of the two edges at the clamped y (a translated or "
+             "mirrored input reaches this branch at other vertices; the result must not depend on it)")
     chk.rule("T.symmetry", "T(Positive, wc, wc2) == T(Negative, -wc, -wc2); NonZero invariant under negation; T independent of own path "
              "type for Intersection / Union / Xor")
     chk.rule("AXIS.mirror", "twin locals for the two axes read mirrored coordinates (transposing the input transposes the result)")
@@ -42,7 +46,9 @@ def run(chk):
         e3.closing_vertex_rule(db, chk, cfg)
         from ..engines import e14_poly as e14
         e14.rule_intersect(db, chk, cfg)
+        e9.rule_wide_kept(db, chk, cfg)
         e14.rule_cross(db, chk, cfg)
+        e3.ip_on_edge_rule(db, chk, cfg)
     chk.floor("T.symmetry", 1700 * len(cfgs))
     chk.floor("T.comparator", 1600 * len(cfgs))
     chk.exhaustive = True
